@@ -60,11 +60,23 @@ class Rule:
 
             # strip final new lines:
             for idx, desc_i in enumerate(doc["description"]):
+                if not isinstance(desc_i, str):
+                    raise MalformedRuleSpec(
+                        f"Rule description must be given as strings, but found: {desc_i!r}."
+                    )
                 doc["description"][idx] = desc_i.strip()
             for idx, ex_i in enumerate(doc["examples"]):
+                if not isinstance(ex_i, str):
+                    raise MalformedRuleSpec(
+                        f"Rule examples must be given as strings, but found: {ex_i!r}."
+                    )
                 doc["examples"][idx] = ex_i.strip()
 
         cast = copy.deepcopy(spec.get("cast"))
+        if cast is not None and not isinstance(cast, dict):
+            raise MalformedRuleSpec(
+                f"Rule casts must be given as a mapping of type names, but found: {cast!r}."
+            )
         for cast_from in list((cast or {}).keys()):
             cast_to = cast.pop(cast_from)
             try:
